@@ -49,6 +49,8 @@ type IdP struct {
 	TokenStyle string
 	// UserinfoClaims: the userinfo answer also carries the user's name claims (most providers do)
 	UserinfoClaims bool
+	// AzpOnWrongAud: ID tokens of the "wrongaud" fault carry azp = this client
+	AzpOnWrongAud bool
 	// NoExpiresIn: the token response leaves out the optional expires_in member
 	NoExpiresIn bool
 	// ClockAhead: the provider's clock runs that much ahead of the gateway's (iat/exp of ID tokens)
@@ -197,6 +199,11 @@ func (p *IdP) idToken(u *IdPUser, fault string) string {
 		claims["iss"] = "http://evil.test/realms/rdpgw"
 	case "wrongaud":
 		claims["aud"] = "someone-else"
+		if p.AzpOnWrongAud {
+			// (the token was issued TO another client; that it names this client as authorised
+			// party does not make this client its audience)
+			claims["azp"] = "rdpgw"
+		}
 	case "expired":
 		ago := 10 * time.Minute
 		if p.ExpiredBy > 0 {
